@@ -8,7 +8,7 @@ import re
 from engine import AnalysisError
 from engine.srcmodel import walk_shallow, norm, parent
 from engine.util import (call_name, contains, enumerate_paths, fstring_holes, fstring_template, get_method, is_attr_of,
-                         single_def_value, in_body, inline_locals)
+                         single_def_value, in_body, inline_locals, inline_helper_call, normalise)
 from engine.cfg import stmt_of
 from engine.dataflow import assigned_value
 from . import c16 as _c16
@@ -71,12 +71,15 @@ def _cmp_multi(op, c):
 _FLIP = {ast.Gt: ast.Lt, ast.Lt: ast.Gt, ast.GtE: ast.LtE, ast.LtE: ast.GtE, ast.Eq: ast.Eq, ast.NotEq: ast.NotEq}
 
 
-def _atom(e, v):
-    """(name, polarity): e is true  <=>  name == polarity."""
+def _atom(e, v, allowed=None):
+    """(name, polarity): e is true  <=>  name == polarity.  A bare name is an atom only when it is `v` or one of the `allowed` names
+    (the function's parameters); a computed local that could not be inlined is unknown."""
     def is_v(x, key):
         return isinstance(x, ast.Subscript) and isinstance(x.value, ast.Name) and x.value.id == v \
             and isinstance(x.slice, ast.Constant) and x.slice.value == key
     if isinstance(e, ast.Name):
+        if allowed is not None and e.id != v and e.id not in allowed:
+            return None
         return ("nonempty" if e.id == v else e.id, True)
     if isinstance(e, ast.Compare) and len(e.ops) == 1:
         l, op, r = e.left, e.ops[0], e.comparators[0]
@@ -109,16 +112,16 @@ def _atom(e, v):
     return None
 
 
-def _cnf(e, val, v):
+def _cnf(e, val, v, allowed=None):
     if isinstance(e, ast.UnaryOp) and isinstance(e.op, ast.Not):
-        return _cnf(e.operand, not val, v)
+        return _cnf(e.operand, not val, v, allowed)
     if isinstance(e, ast.BoolOp):
         conj = isinstance(e.op, ast.And) == val          # And/True and Or/False are conjunctions of the parts
-        parts = [_cnf(x, val, v) for x in e.values]
+        parts = [_cnf(x, val, v, allowed) for x in e.values]
         if conj:
             return [c for p in parts for c in p]
         return _cross(parts)
-    a = _atom(e, v)
+    a = _atom(e, v, allowed)
     if a is None:
         return [frozenset({("?" + ast.unparse(e), val)})]
     return [frozenset({(a[0], a[1] == val)})]
@@ -154,7 +157,7 @@ def r1_collapse_guard(ctx, rid):
     collapse = [s for s, k in stores if k == "value"]
     ctx.require(collapse, f"{rid}: no store to {v}['value'] found in _finalize_var_def (anchor vanished)")
     for s in collapse:
-        val = s.value if isinstance(s, ast.Assign) else None
+        val = _inline(ctx, f, s.value) if isinstance(s, ast.Assign) else None
         if not (isinstance(val, ast.Subscript) and isinstance(val.value, ast.Subscript) and isinstance(val.value.value, ast.Name)
                 and val.value.value.id == v and isinstance(val.value.slice, ast.Constant) and val.value.slice.value == "value"):
             raise AnalysisError(f"{rid}: `{norm(s)}` is not the recognised collapse `{v}['value'] = {v}['value'][k]`")
@@ -169,7 +172,8 @@ def r1_collapse_guard(ctx, rid):
             if t_reach == f_reach:
                 continue
             guards.append(norm(g))
-            clauses += _cnf(g.test, t_reach, v)
+            # the test as a function of the parameters: single-definition locals and one-expression private helpers inlined
+            clauses += _cnf(normalise(ctx, f, g.test), t_reach, v, set(f.params))
         unknown = [l for c in clauses for l in c if l[0].startswith("?")]
         facts = {"path_condition": [sorted(f"{'' if pol else 'not '}{nm}" for nm, pol in c) for c in clauses], "guards": guards}
         for req, keylit, beside, text in R1_REQUIREMENTS:
@@ -260,6 +264,8 @@ def r2_append_ranges(ctx, rid):
     varname = None
     for e in (ia[0], ib[0]):
         for n in ast.walk(e):
+            if isinstance(n, ast.Name) and getattr(n, "_parent", None) is not None:
+                n = single_def_value(ctx, f, n) or n            # values = var['value']
             if isinstance(n, ast.Subscript) and isinstance(n.value, ast.Name) and isinstance(n.slice, ast.Constant) and n.slice.value in ("shape", "value"):
                 varname = varname or n.value.id
     if varname is None:
@@ -351,30 +357,38 @@ def r2_append_ranges(ctx, rid):
                                        f"{'empty (new, new)' if want == 'old' else 'the previous nodes (old, old)'}", facts, label=label)
 
     # (3) the key names the variable whose extents are recorded
-    key = rec.targets[0].slice
-    vdef = None
-    for s in cfg.stmts():
-        if isinstance(s, ast.Assign) and any(isinstance(t, ast.Name) and t.id == varname for t in s.targets):
-            vdef = s
-    ok_key = False
-    if vdef is not None and isinstance(vdef.value, ast.Subscript) and isinstance(key, ast.Tuple) and len(key.elts) == 2 \
-            and all(isinstance(k, ast.Name) for k in key.elts):
-        vkey = vdef.value.slice
-        cont = _inline(ctx, f, vdef.value.value)
-        okey = None
-        for n in ast.walk(cont):
-            if isinstance(n, ast.Subscript) and isinstance(n.slice, ast.Name):
-                okey = n.slice.id
-        op_loop_var = outer.target.elts[0].id if isinstance(outer.target, ast.Tuple) and isinstance(outer.target.elts[0], ast.Name) else None
-        var_loop_var = inner.target.elts[0].id if isinstance(inner.target, ast.Tuple) and isinstance(inner.target.elts[0], ast.Name) else None
-        ok_key = isinstance(vkey, ast.Name) and vkey.id == key.elts[1].id == var_loop_var and okey == key.elts[0].id == op_loop_var
-    elif vdef is None:
-        raise AnalysisError(f"{rid}: definition of `{varname}` not found")
-    if ok_key:
+    key = _inline(ctx, f, rec.targets[0].slice)
+    vdefs = [s for s in cfg.stmts() if isinstance(s, ast.Assign) and any(isinstance(t, ast.Name) and t.id == varname for t in s.targets)]
+    if len(vdefs) != 1:
+        raise AnalysisError(f"{rid}: expected one definition of `{varname}` in append_values, found {len(vdefs)}")
+    vdef = vdefs[0]
+
+    def loop_key(loop):
+        """the name a loop binds to the dictionary key it iterates: `for k, v in d.items()`, `for k in d`, `for k in d.keys()`"""
+        tg = loop.target
+        if isinstance(tg, ast.Tuple) and tg.elts and isinstance(tg.elts[0], ast.Name) and isinstance(loop.iter, ast.Call) and call_name(loop.iter) == "items":
+            return tg.elts[0].id
+        if isinstance(tg, ast.Name):
+            return tg.id
+        return None
+    op_loop_var, var_loop_var = loop_key(outer), loop_key(inner)
+    sel = _inline(ctx, f, vdef.value)                    # <container>[var]  with  <container> = ...[op][...]
+    if not (isinstance(sel, ast.Subscript) and isinstance(key, ast.Tuple) and len(key.elts) == 2 and all(isinstance(k, ast.Name) for k in key.elts)
+            and op_loop_var and var_loop_var):
+        raise AnalysisError(f"{rid}: cannot relate the key `{norm(key)}` to the selection `{norm(vdef)}` of the extended variable (unrecognised form)")
+    vkey = sel.slice
+    cont = _inline(ctx, f, sel.value)                    # re-computed in every pass of the operator loop
+    onames = [n.slice.id for n in ast.walk(cont) if isinstance(n, ast.Subscript) and isinstance(n.slice, ast.Name)]
+    if not (isinstance(vkey, ast.Name) and len(onames) == 1 and {vkey.id, onames[0]} == {op_loop_var, var_loop_var}):
+        raise AnalysisError(f"{rid}: `{norm(vdef)}` does not select the variable by the operator/variable keys of the two loops (unrecognised form)")
+    sel_pair = (onames[0], vkey.id)                      # (operator key, variable key) that select the variable
+    if (key.elts[0].id, key.elts[1].id) == sel_pair and sel_pair == (op_loop_var, var_loop_var):
         ctx.ok(rid, f, rec, "the range is stored under the (operator, variable) key of the variable that was extended", label="range key")
-    else:
+    elif {key.elts[0].id, key.elts[1].id} <= {op_loop_var, var_loop_var} or sel_pair != (op_loop_var, var_loop_var):
         ctx.violation(rid, f, rec, f"the range is stored under `{norm(key)}`, which is not the (operator, variable) pair that selects `{varname}`: "
                                    f"index ranges would be attributed to another variable", label="range key")
+    else:
+        raise AnalysisError(f"{rid}: the key `{norm(key)}` is built from names other than the loop keys (unrecognised form)")
 
     # ---- VectorizedNodeIR.extend ---------------------------------------------------------------------------------------
     ncls = ctx.repo.get_class(ND, "VectorizedNodeIR")
@@ -384,12 +398,16 @@ def r2_append_ranges(ctx, rid):
     ctx.require(len(erets) == 1 and erets[0].value is not None, f"{rid}: VectorizedNodeIR.extend has no single return")
     rv = _inline(ctx, ext, erets[0].value)
     node_param = [p for p in ext.params if p != ext.self_name]
-    good = isinstance(rv, ast.Call) and call_name(rv) == "append_values" and len(rv.args) == 1 and node_param \
-        and is_attr_of(rv.args[0], node_param[0], "values")
-    if good:
+    ctx.require(node_param, f"{rid}: VectorizedNodeIR.extend takes no node")
+    arg = None
+    if isinstance(rv, ast.Call) and call_name(rv) == "append_values" and not rv.keywords and len(rv.args) == 1:
+        arg = _inline(ctx, ext, rv.args[0])
+    if arg is not None and is_attr_of(arg, node_param[0], "values"):
         ctx.ok(rid, ext, erets[0], "extend returns the index ranges computed by append_values for the values of the node it was given")
-    else:
+    elif isinstance(rv, (ast.Constant, ast.Dict)) or (arg is not None and isinstance(arg, (ast.Attribute, ast.Name, ast.Dict, ast.Constant))):
         ctx.violation(rid, ext, erets[0], f"extend returns `{norm(rv)}`, not the ranges append_values computed for the appended node's values")
+    else:
+        raise AnalysisError(f"{rid}: cannot follow what VectorizedNodeIR.extend returns (`{norm(rv)}`)")
     incs = [s for s in ecfg.stmts() if (isinstance(s, ast.AugAssign) and is_attr_of(s.target, ext.self_name, "length"))
             or (isinstance(s, ast.Assign) and any(is_attr_of(t, ext.self_name, "length") for t in s.targets))]
 
@@ -467,9 +485,24 @@ def r2_append_ranges(ctx, rid):
     vl = get_method(ctx, cls, "var_lengths")
     sts = [s for s in walk_shallow(vl.node) if isinstance(s, ast.Assign) and len(s.targets) == 1 and isinstance(s.targets[0], ast.Subscript)]
     ctx.require(len(sts) == 1, f"{rid}: var_lengths has an unrecognised form")
-    val = sts[0].value
-    good = isinstance(val, ast.IfExp) and ast.unparse(val.body).replace('"', "'").endswith("['shape'][0]") and isinstance(val.orelse, ast.Constant) \
-        and val.orelse.value == 1 and ast.unparse(val.test).replace('"', "'").endswith("['shape']")
+    val = inline_locals(ctx, vl, sts[0].value)
+
+    def shape_of(e):
+        """X['shape'] -> dump of X"""
+        if isinstance(e, ast.Subscript) and isinstance(e.slice, ast.Constant) and e.slice.value == "shape":
+            return ast.dump(e.value)
+        return None
+    if not isinstance(val, ast.IfExp):
+        raise AnalysisError(f"{rid}: var_lengths `{norm(val)}` is not of the form `shape[0] if shape else 1` (unrecognised form)")
+    test, body, other = val.test, val.body, val.orelse
+    if isinstance(test, ast.UnaryOp) and isinstance(test.op, ast.Not):
+        test, body, other = test.operand, other, body
+    if isinstance(test, ast.Call) and call_name(test) == "len" and len(test.args) == 1:
+        test = test.args[0]
+    base = shape_of(test)
+    if base is None or not (isinstance(body, ast.Subscript) and shape_of(body.value) is not None) or not isinstance(other, ast.Constant):
+        raise AnalysisError(f"{rid}: var_lengths `{norm(val)}` is not of the form `shape[0] if shape else 1` (unrecognised form)")
+    good = shape_of(body.value) == base and isinstance(body.slice, ast.Constant) and body.slice.value == 0 and other.value == 1 and other.value is not True
     if good:
         ctx.ok(rid, vl, sts[0], "var_lengths is the first extent of the variable's shape (1 for scalars)", nontrivial=False)
     else:
@@ -1073,6 +1106,8 @@ def r4_node_ranges(ctx, rid):
             label_b = f"key names the applied node: {norm(st)}"
             if node_hole in outer_names and rd.defs_reaching(holes[0]) == [outer] and isinstance(lab, ast.Name) and lab.id == node_hole:
                 ctx.ok(rid, f, st, f"the key's node part `{node_hole}` is the loop's node, which is also the label handed to apply", label=label_b)
+            elif lab is not None and not isinstance(lab, ast.Name) and any(isinstance(x, ast.Name) and x.id == node_hole for x in ast.walk(lab)):
+                raise AnalysisError(f"{rid}: the label `{norm(lab)}` handed to apply is computed from `{node_hole}` in a form that is not recognised")
             else:
                 ctx.violation(rid, f, st, f"the key's node part `{node_hole}` is not the node whose template was applied in this iteration (label="
                                           f"{norm(lab) if lab is not None else 'missing'}): the range would be filed under another node", label=label_b)
@@ -1312,7 +1347,11 @@ def r6_indexing_dropped_only_for_identity(ctx, rid):
         about = [(t, pol) for t, pol in lits if _mentions(t, pi) and not case_test(t)]
         text = " and ".join(("" if pol else "not ") + ast.unparse(t) for t, pol in about) or "no test of the index list at all"
 
-        def finite(t):
+        def finite(t, depth=0):
+            if isinstance(t, ast.Call) and depth < 2 and _R.private_helper(ctx, f, t) is not None:
+                body = inline_helper_call(ctx, f, t)             # a one-expression helper: judge what it computes
+                return body is not None and all(finite(x, depth + 1) for x in
+                                                (body.values if isinstance(body, ast.BoolOp) and isinstance(body.op, ast.And) else [body]))
             for n in ast.walk(t):
                 if isinstance(n, ast.Call) and not (call_name(n) in _FINITE_CALLS and not isinstance(n.func, ast.Attribute)
                                                     or (isinstance(n.func, ast.Attribute) and call_name(n) in ("arange", "prod", "sum", "min", "max"))):
